@@ -58,6 +58,8 @@ type Reader struct {
 func NewReaderFromPool(data []byte, opts ...ReaderOption) *Reader {
 	r := readerPool.Get().(*Reader)
 	r.buf = data
+	// 池中对象可能曾被指定过其他字节序：未指定时必须恢复默认的大端序，而不是沿用上一个使用者的设置
+	r.order = binary.BigEndian
 	if len(opts) > 0 {
 		opt := opts[0]
 		if opt.ByteOrder != nil {
